@@ -7,7 +7,7 @@ AnnotateChange.tla holds the Model (the loops of annotate/change.go as a step ma
   3. runs the real annotate.Change on every case (harness/cmd/c13, neutral renderer/recorder),
   4. lets TLC judge every recorded line (AnnotateChangeJudge.tla)."""
 import concurrent.futures as cf
-import os, shutil
+import json, os, shutil
 import vlib
 
 MOD, GEN, GENR, JUDGE, JCFG = "AnnotateChange", "AnnotateChangeGen", "AnnotateChangeGenR", "AnnotateChangeJudge", "AnnotateChangeJudge.cfg"
@@ -63,17 +63,28 @@ def run(ctx):
     wd = os.path.join(ctx.scratch, "spec")
     if not os.path.isdir(wd):
         shutil.copytree(vlib.SPEC, wd, ignore=shutil.ignore_patterns("states", ".tlacache"))
-    with cf.ThreadPoolExecutor(max_workers=6) as ex:
-        # 1. design level: the step machine = Expected, satisfies JudgeOK, on all static cases, random draws and
-        #    every change the generating machine builds (runs concurrently with the rest)
-        mc = ex.submit(vlib.tlc_model_check, ctx, MOD, "AnnotateChange_%s.cfg" % tier, workers=6 if ctx.quick() else 12,
-                       args=seedargs, timeout=840)
+    with cf.ThreadPoolExecutor(max_workers=10) as ex:
+        # 1. design level, two TLC processes running concurrently with the rest: the step machine = Expected and satisfies
+        #    JudgeOK (a) from every static case and from random draws, (b) on every change the generating machine builds
+        mcs = [ex.submit(vlib.tlc_model_check, ctx, MOD, "AnnotateChange_%s.cfg" % tier, workers=2 if ctx.quick() else 4,
+                         args=seedargs, timeout=840),
+               ex.submit(vlib.tlc_model_check, ctx, MOD, "AnnotateChange_%s_build.cfg" % tier, workers=4 if ctx.quick() else 8,
+                         args=seedargs, timeout=840)]
         # 2. cases
-        gens = [ex.submit(vlib.tlc_gen, ctx, GEN, "AnnotateChangeGen_%s.cfg" % tier, args=seedargs)]
-        if not ctx.quick():
+        if ctx.quick():
+            gens = [ex.submit(vlib.tlc_gen, ctx, GEN, "AnnotateChangeGen_quick.cfg", args=seedargs)]
+        else:
+            gens = [ex.submit(vlib.tlc_gen, ctx, GEN, "AnnotateChangeGen_thorough_%s.cfg" % k, args=seedargs)
+                    for k in ("node", "way", "relation")]
             for k in range(4):
                 gens.append(ex.submit(vlib.tlc_gen, ctx, GENR, "AnnotateChangeGenR.cfg", args=("-seed", str(ctx.seed * 100 + k))))
-        cases = [c for g in gens for c in g.result()]
+        cases, seen = [], set()
+        for g in gens:
+            for c in g.result():
+                key = json.dumps(c, sort_keys=True)
+                if key not in seen:       # Houses / Failing are written by each of the three static processes
+                    seen.add(key)
+                    cases.append(c)
         sanity(cases)
         # 3. real code
         recs = execute(ctx, cases)
@@ -84,14 +95,15 @@ def run(ctx):
         # 4. verdict
         vlib.judge_and_confirm(ctx, cases, recs, lambda cs: execute(ctx, cs), lambda rs: judge(ctx, rs),
                                replay_extra={"id_base": id_base(ctx)})
-        mc.result()
+        for m in mcs:
+            m.result()
     ctx.exhaustive = True
     ctx.extra["id_base"] = id_base(ctx)
     ctx.rule = ("cases = static families of AnnotateChange.tla (Singles: one modified/deleted element of each kind, versions 1..4, "
                 "against every stored order of every subset of 1..HMax and against no history, both options; Pairs: two elements "
                 "in every pair of cells x every shape; Houses; Failing) enumerated completely by TLC (%s) + seeded random draws of "
                 "the full product space; distinct = distinct abstract cases; non-trivial = at least one modified or deleted element"
-                % ("AnnotateChangeGen_%s.cfg" % tier))
+                % ("AnnotateChangeGen_%s*.cfg" % tier))
     ctx.assumptions = [
         "version numbers are distinct within one stored history (the property speaks of 'the' greatest version below)",
         "for an element without any history both NoVisibleChildError (what Change returns) and NoHistoryError are accepted as "
